@@ -190,6 +190,7 @@ def parse_assumptions(out):
 
 
 # ---------------------------------------------------------------- Coq case evaluation
+_STRLIT = re.compile(r'"[^"]*"')
 def coq_bad_indices(prop, name, imports, ok_fun, case_type, items, shard=400, prelude="", timeout=900):
     """Correspondence by evaluation inside the proof assistant.  `items` are Coq terms of type `case_type`
     (each holding the input and what the IMPLEMENTATION answered); `ok_fun : case_type -> bool` runs the
@@ -202,10 +203,17 @@ def coq_bad_indices(prop, name, imports, ok_fun, case_type, items, shard=400, pr
     paths = []
     for k, sh_items in enumerate(shards):
         p = os.path.join(d, "s%04d.v" % k)
+        # string literals are by far the slowest thing for coqc to elaborate (~0.7 ms each): intern them per shard
+        table = {}
+        def intern(m):
+            return "(nm__ %d)" % table.setdefault(m.group(0), len(table))
+        sh_items = [_STRLIT.sub(intern, it) for it in sh_items]
         with open(p, "w") as f:
             f.write("From OfxV Require Import Base.Prelude.\n")
             for imp in imports:
                 f.write("From OfxV Require Import %s.\n" % imp)
+            f.write("Definition names__ : list string := [%s]%%list.\n" % ";".join("%s%%string" % lit for lit in table))
+            f.write("Definition nm__ (k : N) : string := nth (N.to_nat k) names__ EmptyString.\n")
             f.write("Local Open Scope N_scope.\n")
             f.write(prelude + "\n")
             f.write("Definition cases : list (%s) :=\n [ " % case_type)
